@@ -1,7 +1,8 @@
 (* Props/C10.v -- property theorems only *)
 From Coq Require Import ZArith List NArith.
 From Falcon Require Import Base.Res IL.Const IL.Expr IL.Func IL.Loc Exec.Sem SSA.SemSSA SSA.FuncEq SSA.SsaCheck
-     SSA.SsaSound SSA.SsaModel SSA.SsaTotal SSA.SsaFresh SSA.SsaComplete SSA.C10Check.
+     SSA.SsaSound SSA.SsaModel SSA.SsaTotal SSA.SsaFresh SSA.SsaArity SSA.SsaIdf SSA.SsaIdfModel SSA.SsaNonLocal SSA.SsaComplete SSA.C10Check.
+From Falcon Require Graph.Spec Graph.Graph Graph.Algo.
 Import ListNotations.
 Local Open Scope Z_scope.
 
@@ -72,20 +73,71 @@ Theorem ssa_model_single_def : forall f f', ssa_model f = Ok f' ->
 Proof. exact SsaFresh.ssa_model_single_def. Qed.
 Print Assumptions ssa_model_single_def.
 
+(* [U] unconditional: phi arity by construction of mk_phi -- condition (4) of the validator, as its boolean *)
+Theorem ssa_model_arity : forall f f', ssa_model f = Ok f' ->
+  (forall b, In b (f_blocks f) -> b_phis b = []) ->
+  NoDup (map (fun e => (e_head e, e_tail e)) (f_edges f)) ->
+  forallb (fun b => forallb (phi_arity_ok f' b) (b_phis b)) (f_blocks f') = true.
+Proof. exact SsaArity.ssa_model_arity. Qed.
+Print Assumptions ssa_model_arity.
+
 (* completeness.  NOT proved:  ssa_correct_full :=
      forall f e, cfg_inv (f_cfg f) = true -> g_entry (f_cfg f) = Some e -> erase_func f = f ->
      exists f', ssa_model f = Ok f' /\ ssa_check f f' = true.
    Proved [U] (under semi_nca_ok): the model returns Ok f' and ssa_check f f' = remaining f', where
    `remaining` = (every versioned use is defined) && (local consistency of the inferred typing: block_ok,
-   edge_check, entry_ok) && (phi arity); conditions (1), struct_ok and the uniqueness half of (2) hold. *)
+   edge_check, entry_ok); conditions (1), struct_ok, the uniqueness half of (2) and (4) hold.
+   `remaining f' = true` for the model's output (SsaComplete.ssa_remaining_open) is open: its dominance-frontier
+   content is proved below (the idf_ theorems), the renaming invariant of the dominator-tree walk is not. *)
 Theorem ssa_correct_partial : forall f e,
   cfg_inv (f_cfg f) = true -> g_entry (f_cfg f) = Some e -> erase_func f = f -> semi_nca_ok (f_cfg f) ->
   exists f', ssa_model f = Ok f' /\
              erase_func f' = f /\ func_eqb (erase_func f') f = true /\ struct_ok f' = true /\
              NoDup (map skey_of (filter versioned (all_defs f'))) /\
+             forallb (fun b => forallb (phi_arity_ok f' b) (b_phis b)) (f_blocks f') = true /\
              ssa_check f f' = remaining f'.
 Proof. exact SsaComplete.ssa_correct_partial. Qed.
 Print Assumptions ssa_correct_partial.
+
+(* [U] unconditional: what the (repaired) compute_non_local_scalars guarantees -- every read not preceded by a write
+   in its block, be it an operand, a declared intrinsic read or the guard of an outgoing edge, is non-local
+   (the pristine code did not scan the guards: defect (b)) *)
+Theorem non_locals_cover : forall g b, In b (g_blocks g) ->
+  (forall pre i rest, b_instrs b = pre ++ i :: rest -> forall s, In s (reads i) ->
+     mem_scalar s (compute_non_local_scalars g) = true \/ In s (flat_map writes pre)) /\
+  (forall es e c s, cfg_edges_out g (b_index b) = Ok es -> In e es -> e_cond e = Some c -> In s (scalars c) ->
+     mem_scalar s (compute_non_local_scalars g) = true \/ In s (flat_map writes (b_instrs b))).
+Proof. exact SsaNonLocal.non_locals_cover. Qed.
+Print Assumptions non_locals_cover.
+
+(* [U] the classical iterated-dominance-frontier property of the placement (was to be the hypothesis
+   `idf_covered`; it is proved): under semi_nca_ok, for every written non-local scalar sc the blocks INS that
+   received a phi node for sc satisfy  DF(defs(sc) + INS) <= INS  for the textbook frontier in_DF *)
+Theorem idf_covered_model : forall g g1 e, cfg_wf g -> g_entry g = Some e -> In e (bidx g) -> semi_nca_ok g ->
+  insert_phi_nodes g = Ok g1 ->
+  exists gr, cfg_graph g = Ok gr /\
+    forall sc defs, In (sc, defs) (scalars_mutated_in_blocks g) ->
+      mem_scalar sc (compute_non_local_scalars g) = true ->
+      exists INS, (forall i, In i INS -> has_phi g1 i sc) /\
+        forall d y, In (Z.of_N d) defs \/ In (Z.of_N d) INS ->
+                    Spec.in_DF (Graph.edge_keys gr) (Z.to_N e) d y -> In (Z.of_N y) INS.
+Proof. exact SsaIdfModel.model_idf_covered. Qed.
+Print Assumptions idf_covered_model.
+
+(* [U] what that closure buys (pure dominance, Graph/Spec.v): at a block s without a phi node every predecessor p
+   sees exactly the definers that dominate idom(s) -- so dominator-tree renaming gives p's end and idom(s)'s end the
+   same version --, and at an entry without phi no definer dominates a predecessor (the value is the entry value) *)
+Theorem idf_no_phi_agree : forall es r (D Dphi : N -> Prop),
+  (forall d y, D d -> Spec.in_DF es r d y -> Dphi y) ->
+  forall i s p a, Spec.idom es r i s -> ~ Dphi s -> Spec.edge es p s -> Spec.reach es r p ->
+  D a -> (Spec.dom es r a p <-> Spec.dom es r a i).
+Proof. exact SsaIdf.no_phi_agree. Qed.
+Print Assumptions idf_no_phi_agree.
+Theorem idf_no_phi_entry : forall es r (D Dphi : N -> Prop),
+  (forall d y, D d -> Spec.in_DF es r d y -> Dphi y) ->
+  forall p a, ~ Dphi r -> Spec.edge es p r -> D a -> ~ Spec.dom es r a p.
+Proof. exact SsaIdf.no_phi_entry. Qed.
+Print Assumptions idf_no_phi_entry.
 
 (* ---- the hypotheses are satisfiable; the validator is not vacuous ---- *)
 Definition sx (v : option N) := mks 0%N 32 v.
